@@ -61,12 +61,14 @@ type Exec struct {
 	// per-run logs
 	reached  map[string]bool
 	knownHit map[string]string // key -> witness description
+	knownPath bool             // some assertion on this path failed only inside listed known-finding regions
 	params   map[string]int
 	hooks    map[string][2]Value
 	inHook   bool
 	spawned  []func()
 	spawnedNames []string
 	tokens   []Value // opaque encoder tokens (base64 etc.)
+	syncMaps map[string]*MapV // contents of sync.Map objects
 	shared   map[string]bool
 	regions  map[string][]knownRegion
 	allowPanic []string
